@@ -299,6 +299,12 @@ add("C19", "fixed", "global-not-reported:in-main",
     "('{% capture s %}{{ s.first }}{% endcapture %}'), which reads the outer value, was missing from analysis.globals",
     [c19("{% capture s %}[{{ s.first }}]{% endcapture %}{{ s }}", {}, {"s": ["GS"]}), c19("{% liquid\n capture k\n echo k.x\n endcapture\n%}", {}, {"k": {"x": 1}})], "73500ff")
 
+# ----------------------------------------------------------------------------- C04 fixed in round 3
+add("C04", "fixed", "output-differs:logical", "str() of a comparison dropped the parentheses of a parenthesised logical operand: '(a and b) == c' became 'a and b == c', which parses as a and (b == c)",
+    [c04("{% if (a and b) == c %}y{% else %}n{% endif %}"), c04("{% if a == (b or c) %}y{% endif %}"), c04("{{ 'x' if (a and b) != c else 'y' }}")], "3d10aec")
+add("C04", "fixed", "reparse-error:keyword-spelled-segment", "Path.__str__ wrote a bracketed segment spelled like a keyword in dot notation: a['if'] became a.if (does not parse) and ['true'] / ['empty'] became the literals true / empty",
+    [c04("{{ a['if'] }}"), c04("{{ ['true'] }}{{ ['empty'] }}"), c04("{% for i in a['in'] %}{{ i }}{% endfor %}"), c04("{% render 'q' with d['blank'] as s %}")], "edcd94e")
+
 if __name__ == "__main__":
     # further entries are appended by tools/mkfindings.py from triaged replay files and kept in findings_extra.json
     extra_path = os.path.join(VERIF, "tools", "findings_extra.json")
